@@ -2,14 +2,21 @@
 
 spec/Validate.tla models the work-list algorithm over the Engine model with
 stored results; Init ranges over (perturbed cell, stored value) x output list
-x tolerance (None, 0, 2); the workbook calculates normally or iteratively
-(calculation.iterate, constant Iterate); TLC checks the report relation
-(ConsistentEmpty, PerturbedNamed, OnlyDependants, UnevaluableReported) on
-every behaviour and exports the final report.  Each case becomes a real .xlsx
-file whose stored results (and calculation mode) are patched accordingly;
-validate_calcs is run on it.  VERDICT: the returned dict
-satisfies the report relation of the statement.  BINDING: the mismatch
-entries equal the model's (difference = NOTE spec-drift).
+x configuration (cells whose evaluation raises, normal or iterative
+calculation -- calculation.iterate --, tolerance None, 0, 2); TLC checks the
+report relation (ConsistentEmpty, PerturbedNamed, OnlyDependants,
+UnevaluableReported) on every behaviour and exports the final report: one TLC
+run per workbook.  Each case becomes a real .xlsx file whose stored results
+(and calculation mode) are patched accordingly; validate_calcs is run on it.
+VERDICT: the returned dict satisfies the report relation of the statement.
+BINDING: the mismatch entries equal the model's (difference = NOTE spec-drift).
+
+A stored result is altered to a value of every kind the quantifier lists
+(number, text, logical, error), the empty text included (which a workbook
+stores as <v></v>), and to the value of the OTHER kind which python takes for
+equal: TRUE <-> 1, FALSE <-> 0.  A tolerance bounds the distance of two numbers;
+a logical is not a number (=TRUE=1 is FALSE), so such an alteration is an
+alteration under every tolerance (Validate.tla, Altered).
 """
 import contextlib
 import io
@@ -23,11 +30,20 @@ from harness.evidence import Verdict
 
 PID = 'C12'
 
+WORKBOOKS = dict(W.WORKBOOKS)
+# formula cells whose results are TRUE, FALSE, 0 and 1, each with a dependant
+# which tells the logical from the number (Cat: "TRUEx" / "1x")
+WORKBOOKS['logic'] = dict(
+    inputs={'A1': True, 'A2': False},
+    formulas={'B1': ('Idx', 'A1:A2', 1, 1), 'B2': ('Idx', 'A1:A2', 2, 1),
+              'C1': ('Plus', ['B1'], 0), 'C2': ('Plus', ['B2'], 0),
+              'D1': ('Cat', 'B1'), 'D2': ('Cat', 'C2')},
+    ranges={'A1:A2': [['A1'], ['A2']]})
+
 
 def desc_of(wb, cell):
     """cell and everything that depends on it"""
     prec = {}
-    n = W.nodes(wb)
     for f, d in wb['formulas'].items():
         prec[f] = set(d[1]) if d[0] == 'Plus' else {d[1]}
     for r, rows in wb.get('ranges', {}).items():
@@ -49,45 +65,58 @@ def desc_of(wb, cell):
     return out
 
 
+def is_number(x):
+    return isinstance(x, (int, float)) and not isinstance(x, bool)
+
+
 def perturb_values(fresh):
     """stored-result alterations of each class for a cell whose value is fresh"""
-    out = []
     if isinstance(fresh, bool):
-        return [7, 'zz']
+        # the number python takes for equal, the other logical, a number, texts, an error
+        return [int(fresh), not fresh, 7, 'zz', '', '#N/A']
     if isinstance(fresh, int):
-        out.append(fresh + 7)
-        out.append('zz')
-        out.append('#N/A')
-        if fresh not in (0, 1):
-            out.append(True)
+        out = [fresh + 7, 'zz', '', '#N/A']
+        # a logical: the one python takes for equal to the number, if there is one
+        out.append(bool(fresh) if fresh in (0, 1) else True)
         if abs(fresh) > 2:
             out.append(0)           # a falsy stored result is still a stored result
-    else:
-        out += ['zz', 99, '#N/A', 0]
+        return out
+    out = ['zz', 99, '#N/A', 0, True]
+    if fresh != '':
+        out.append('')
     return out
+
+
+def altered(stored, value, tol):
+    """Validate.tla Altered: "altered by more than the tolerance" """
+    if is_number(stored) and is_number(value):
+        diff = abs(stored - value)
+        # tolerance None means "relatively close" (1e-5) in close_enough()
+        return diff > tol if tol is not None else diff > 1e-5 * max(abs(stored), abs(value))
+    return not xl.same_value(stored, value)
 
 
 NONE_TOL = -1            # Validate.tla: tolerance None (the default)
 ITERATE = (100, 0.001)   # calcPr iterateCount / iterateDelta of an iterative workbook
 
 
-def run_model(name, wb, outlists, tols, perturbs, broken, iterate, timeout=1800):
-    """TLC explores validate_calcs for every (perturbation, outputs, tol) choice;
-    returns (tlc result, list of exported final reports)"""
+def run_model(name, wb, outlists, perturbs, configs, timeout=1800):
+    """TLC explores validate_calcs for every (perturbation, outputs, configuration)
+    choice; returns (tlc result, list of exported final reports)"""
     d = tlc.new_scratch('val')
     mod = f'MC_{name}_val'
     extra = '\n'.join([
         'MCOutputLists == ' + W.tla_set(W.tla_seq(map(W.q, o)) for o in outlists),
-        'MCTols == ' + W.tla_set(map(str, tols)),
         'MCPerturbs == ' + W.tla_set(f'<<{W.q(c)}, {W.tla_val(v)}>>' for c, v in perturbs),
-        'MCBroken == ' + W.tla_set(map(W.q, broken)),
-        'MCIterate == ' + ('TRUE' if iterate else 'FALSE'),
+        'MCConfigs == ' + W.tla_set(
+            f'<<{W.tla_set(map(W.q, b))}, {"TRUE" if it else "FALSE"}, {t}>>'
+            for b, it, t in configs),
     ])
     with open(os.path.join(d, mod + '.tla'), 'w') as f:
         f.write(W.tla_constants(wb, [1], 'Stored', mod, extends='Validate', extra=extra))
     with open(os.path.join(d, 'v.cfg'), 'w') as f:
-        f.write(W.CONST_CFG + '  OutputLists <- MCOutputLists\n  Tols <- MCTols\n'
-                '  Perturbs <- MCPerturbs\n  Broken <- MCBroken\n  Iterate <- MCIterate\n'
+        f.write(W.CONST_CFG + '  OutputLists <- MCOutputLists\n'
+                '  Perturbs <- MCPerturbs\n  Configs <- MCConfigs\n'
                 'SPECIFICATION VSpec\n'
                 'INVARIANT ConsistentEmpty\nINVARIANT PerturbedNamed\n'
                 'INVARIANT OnlyDependants\nINVARIANT UnevaluableReported\n'
@@ -102,122 +131,122 @@ def run_model(name, wb, outlists, tols, perturbs, broken, iterate, timeout=1800)
     return res, res.json
 
 
-def job(arg):
+def model_job(arg):
+    """one workbook: the choices, the TLC run, the exported reports"""
     name, seed, n_out, runs = arg
     rnd = random.Random(seed)
-    wb = W.WORKBOOKS[name]
-    n = W.nodes(wb)
-    forms = [f for f in n['formulas']]
+    wb = WORKBOOKS[name]
+    forms = list(W.nodes(wb)['formulas'])
     oracle = engine.Oracle(wb)
-    fresh = {k: v for k, (st, v) in oracle.values(dict(wb['inputs'])).items()}
+    fresh = {k: v for k, (st, v) in oracle.values(dict(wb['inputs'])).items() if k in forms}
     outlists = [[f] for f in forms]
     pairs = [list(c) for c in itertools.permutations(forms, 2)]
     rnd.shuffle(pairs)
     outlists += pairs[:n_out] + [list(forms)]
     perturbs = [(f, v) for f in forms for v in perturb_values(fresh[f])]
-    out = dict(name=name, run=repr(runs), tlc=[], violations=[], notes=[], cases=0, keys=0,
-               drift=0, sample=None, reports=0)
+    for f, v in perturbs:
+        assert not xl.same_value(fresh[f], v), (f, v)
+    configs = [(b, it, t) for b, it, tols in runs for t in tols]
+    assert len({(tuple(b), it) for b, it, _ in runs}) == len(runs), runs
+    res, reports = run_model(name, wb, outlists, perturbs, configs)
+    expected = len(outlists) * len(configs) * (len(perturbs) + 1)
+    if len(reports) != expected:
+        raise tlc.MachineryFailure(f'{name}: {len(reports)} reports exported, expected {expected}')
+    kinds = sorted({f'{xl.typeclass(fresh[f])}->{"empty text" if v == "" else xl.typeclass(v)}'
+                    for f, v in perturbs})
+    return dict(name=name, fresh=fresh, reports=reports, kinds=kinds,
+                tlc=dict(run=f'Validate {name} runs={runs}', distinct=res.distinct,
+                         generated=res.generated, depth=res.depth, wall_s=round(res.wall, 2)))
+
+
+def exec_job(arg):
+    """a share of the exported reports: each one as an .xlsx run through validate_calcs"""
+    from pycel import ExcelCompiler
+    items, run_index = arg
+    out = dict(violations=[], notes=[], cases=0, drift=0, sample=None)
     workdir = tlc.new_scratch('c12')
-    for broken, iterate, tols, bi in runs:
-        res, reports = run_model(name, wb, outlists, tols, perturbs, broken, iterate)
-        out['tlc'].append(dict(run=f'Validate {name} broken={broken} iterate={iterate} tols={tols}',
-                               distinct=res.distinct,
-                               generated=res.generated, depth=res.depth,
-                               wall_s=round(res.wall, 2)))
-        expected = len(outlists) * len(tols) * (len(perturbs) + 1)
-        if len(reports) != expected:
-            raise tlc.MachineryFailure(f'{len(reports)} reports exported, expected {expected}')
-        for rep in reports:
-            out['cases'] += 1
-            out['keys'] += 1
-            p_cell, p_val = rep['p'][0], rep['p'][1]
-            perturbed = p_cell != ''
-            cells, arrays = W.cells(wb)
-            for i, b in enumerate(broken):
-                fn = 'NOSUCHFN' if (i + bi) % 2 == 0 else 'VFAIL'
-                cells[b] = f'={fn}({cells[b][1:]})'
-            results = {f: fresh[f] for f in forms}
-            if perturbed:
-                results[p_cell] = W.py_val(p_val)
-            key = json.dumps([sorted(cells.items()), sorted(results.items(), key=str), iterate],
-                             default=str)
-            path = os.path.join(workdir, f'v{abs(hash(key))}.xlsx')
-            if not os.path.exists(path):
-                xl.write_xlsx_with_results(path, cells, results, arrays=arrays,
-                                           iterate=ITERATE if iterate else None)
-            from pycel import ExcelCompiler
-            tol = None if rep['tol'] == NONE_TOL else rep['tol']
-            case = dict(workbook=name, cells=cells, stored=results, outputs=rep['outs'],
-                        tolerance=tol, perturbed=[p_cell, W.py_val(p_val) if perturbed else None],
-                        broken=broken, iterate=iterate)
-            try:
-                m = ExcelCompiler(path, plugins=('harness.plugin_fail',))
-                with contextlib.redirect_stdout(io.StringIO()):
-                    got = m.validate_calcs(output_addrs=[W.addr(o) for o in rep['outs']],
-                                           tolerance=tol)
-            except Exception as exc:          # noqa
-                out['violations'].append((f'validate_calcs raised {type(exc).__name__}: {exc}', case))
-                continue
-            if out['sample'] is None and perturbed:
-                out['sample'] = dict(case, report=repr(got)[:400])
-            mism = {k.split('!')[1]: v for k, v in got.get('mismatch', {}).items()}
-            unevaluable = set()
-            for bucket in ('exceptions', 'not-implemented'):
-                for lst in got.get(bucket, {}).values():
-                    unevaluable.update(a.split('!')[1] for a, _, _ in lst)
-            other = set(got) - {'mismatch', 'exceptions', 'not-implemented'}
-            # ---- the report relation of the statement ----
-            if not perturbed and not broken and got != {}:
-                out['violations'].append((f'consistent workbook, report not empty: {got!r}', case))
-            if perturbed:
-                reach = set(rep['reach'])
-                want_calc = fresh[p_cell]
-                # close_enough() treats logicals as 1/0: a logical stored where a
-                # number within the tolerance is computed is not "altered by more
-                # than the tolerance" (DESIGN 5: 1<->TRUE family, not judged)
-                pv_, wc_ = W.py_val(p_val), want_calc
-                if isinstance(wc_, int) and isinstance(pv_, int):
-                    diff = abs(int(wc_) - int(pv_))
-                    # tolerance None means "relatively close" (1e-5) in close_enough()
-                    altered = (diff > tol if tol is not None
-                               else diff > 1e-5 * max(abs(int(wc_)), abs(int(pv_))))
-                else:
-                    altered = True
-                if p_cell in reach and p_cell not in unevaluable and altered:
-                    mm = mism.get(p_cell)
-                    if mm is None:
-                        out['violations'].append((
-                            f'stored result of {p_cell} altered to {W.py_val(p_val)!r} but the '
-                            f'report does not name it: {got!r}', case))
-                    elif not (xl.same_value(mm.original, W.py_val(p_val)) and
-                              xl.same_value(mm.calced, want_calc)):
-                        out['violations'].append((
-                            f'{p_cell} reported with (stored, recomputed) = ({mm.original!r}, '
-                            f'{mm.calced!r}), expected ({W.py_val(p_val)!r}, {want_calc!r})', case))
-                extra = set(mism) - desc_of(wb, p_cell)
-                if extra:
+    for name, fresh, rep in items:
+        wb = WORKBOOKS[name]
+        forms = list(W.nodes(wb)['formulas'])
+        broken, iterate = sorted(rep['broken']), rep['iterate']
+        bi = run_index[name, tuple(broken), iterate]
+        out['cases'] += 1
+        p_cell, p_val = rep['p'][0], rep['p'][1]
+        perturbed = p_cell != ''
+        cells, arrays = W.cells(wb)
+        for i, b in enumerate(broken):
+            fn = 'NOSUCHFN' if (i + bi) % 2 == 0 else 'VFAIL'
+            cells[b] = f'={fn}({cells[b][1:]})'
+        results = {f: fresh[f] for f in forms}
+        if perturbed:
+            results[p_cell] = W.py_val(p_val)
+        key = json.dumps([name, sorted(cells.items()), sorted(results.items(), key=str), iterate],
+                         default=str)
+        path = os.path.join(workdir, f'v{abs(hash(key))}.xlsx')
+        if not os.path.exists(path):
+            xl.write_xlsx_with_results(path, cells, results, arrays=arrays,
+                                       iterate=ITERATE if iterate else None)
+        tol = None if rep['tol'] == NONE_TOL else rep['tol']
+        case = dict(workbook=name, cells=cells, stored=results, outputs=rep['outs'],
+                    tolerance=tol, perturbed=[p_cell, W.py_val(p_val) if perturbed else None],
+                    broken=broken, iterate=iterate)
+        try:
+            m = ExcelCompiler(path, plugins=('harness.plugin_fail',))
+            with contextlib.redirect_stdout(io.StringIO()):
+                got = m.validate_calcs(output_addrs=[W.addr(o) for o in rep['outs']],
+                                       tolerance=tol)
+        except Exception as exc:          # noqa
+            out['violations'].append((f'validate_calcs raised {type(exc).__name__}: {exc}', case))
+            continue
+        if out['sample'] is None and perturbed:
+            out['sample'] = dict(case, report=repr(got)[:400])
+        mism = {k.split('!')[1]: v for k, v in got.get('mismatch', {}).items()}
+        unevaluable = set()
+        for bucket in ('exceptions', 'not-implemented'):
+            for lst in got.get(bucket, {}).values():
+                unevaluable.update(a.split('!')[1] for a, _, _ in lst)
+        other = set(got) - {'mismatch', 'exceptions', 'not-implemented'}
+        # ---- the report relation of the statement ----
+        if not perturbed and not broken and got != {}:
+            out['violations'].append((f'consistent workbook, report not empty: {got!r}', case))
+        if perturbed:
+            reach = set(rep['reach'])
+            want_calc, stored = fresh[p_cell], W.py_val(p_val)
+            if p_cell in reach and p_cell not in unevaluable and altered(want_calc, stored, tol):
+                mm = mism.get(p_cell)
+                if mm is None:
                     out['violations'].append((
-                        f'reported cells {sorted(extra)} do not depend on the altered cell '
-                        f'{p_cell}', case))
-            elif mism:
-                out['violations'].append((f'nothing altered but mismatches reported: {mism}', case))
-            for b in broken:
-                if b in rep['reach'] and b not in unevaluable:
+                        f'stored result of {p_cell} altered from {want_calc!r} to {stored!r} '
+                        f'but the report does not name it: {got!r}', case))
+                elif not (xl.same_value(mm.original, stored) and
+                          xl.same_value(mm.calced, want_calc)):
                     out['violations'].append((
-                        f'{b} cannot be evaluated but is not under exceptions/not-implemented: '
-                        f'{got!r}', case))
-            if other:
-                out['violations'].append((f'unknown report sections {other}', case))
-            # ---- binding: the model's report ----
-            model_m = {m_[0]: (W.py_val(m_[1]), W.py_val(m_[2])) for m_ in rep['mism']}
-            real_m = {k: (v.original, v.calced) for k, v in mism.items()}
-            if (set(model_m) != set(real_m) or set(rep['excs']) != unevaluable) and out['drift'] < 3:
-                out['drift'] += 1
-                out['notes'].append(f'spec-drift {name}: model report {model_m} excs {rep["excs"]} '
-                                    f'vs real {real_m} excs {sorted(unevaluable)} for outs '
-                                    f'{rep["outs"]} p {rep["p"]} broken {broken} iterate {iterate}')
-        out['reports'] += len(reports)
-    out['violations'] = out['violations'][:6]
+                        f'{p_cell} reported with (stored, recomputed) = ({mm.original!r}, '
+                        f'{mm.calced!r}), expected ({stored!r}, {want_calc!r})', case))
+            extra = set(mism) - desc_of(wb, p_cell)
+            if extra:
+                out['violations'].append((
+                    f'reported cells {sorted(extra)} do not depend on the altered cell '
+                    f'{p_cell}', case))
+        elif mism:
+            out['violations'].append((f'nothing altered but mismatches reported: {mism}', case))
+        for b in broken:
+            if b in rep['reach'] and b not in unevaluable:
+                out['violations'].append((
+                    f'{b} cannot be evaluated but is not under exceptions/not-implemented: '
+                    f'{got!r}', case))
+        if other:
+            out['violations'].append((f'unknown report sections {other}', case))
+        # ---- binding: the model's report ----
+        model_m = {m_[0]: (W.py_val(m_[1]), W.py_val(m_[2])) for m_ in rep['mism']}
+        real_m = {k: (v.original, v.calced) for k, v in mism.items()}
+        if (set(model_m) != set(real_m) or set(rep['excs']) != unevaluable) and out['drift'] < 2:
+            out['drift'] += 1
+            out['notes'].append(f'spec-drift {name}: model report {model_m} excs {rep["excs"]} '
+                                f'vs real {real_m} excs {sorted(unevaluable)} for outs '
+                                f'{rep["outs"]} p {rep["p"]} broken {broken} iterate {iterate}')
+    out['n_violations'] = len(out['violations'])
+    out['violations'] = out['violations'][:3]
     return out
 
 
@@ -232,39 +261,65 @@ def run(tier, seed):
                 ('range', 2, [([], False, [N, Z, 2]), ([], True, [N])]),
                 ('cse', 2, [([], False, [N, 2])]),
                 ('big', 2, [([], False, [N, Z, 2]), (['C1'], False, [N, 2]), ([], True, [Z])]),
-                ('csef', 2, [([], False, [N, 2]), ([], True, [N])])]
+                ('csef', 2, [([], False, [N, 2]), ([], True, [N])]),
+                ('logic', 2, [([], False, [N, 2]), ([], True, [Z])]),
+                ('emptytext', 2, [([], False, [N, 2]), ([], True, [N])])]
     else:
         plan = []
-        for name in ('chain', 'nested', 'range', 'cse', 'grid', 'alias', 'trimex', 'big', 'csef'):
-            singles = [[f] for f in sorted(W.WORKBOOKS[name]['formulas'])]
+        for name in ('chain', 'nested', 'range', 'cse', 'grid', 'alias', 'trimex', 'big', 'csef',
+                     'logic', 'emptytext'):
+            singles = [[f] for f in sorted(WORKBOOKS[name]['formulas'])]
             plan.append((name, 12,
                          [([], False, [N, Z, 2])] + [(b, False, [N, 2]) for b in singles] +
                          [([], True, [N, Z, 2])] + [(b, True, [N]) for b in singles]))
-    # one job per TLC run: the runs of one workbook go to different workers
-    jobs = [(name, seed, n_out, [r + (k,)]) for name, n_out, runs in plan
-            for k, r in enumerate(runs)]
-    results = parallel.run_jobs(job, jobs)
+    # one TLC run per workbook: the configurations are choices of Init
+    models = parallel.run_jobs(model_job, [(name, seed, n_out, runs)
+                                           for name, n_out, runs in plan])
+    run_index = {(name, tuple(sorted(b)), it): k
+                 for name, _, runs in plan for k, (b, it, _) in enumerate(runs)}
+    items, kinds = [], set()
+    for mo in models:
+        t = mo['tlc']
+        v.tlc_runs.append(t)
+        v.states += t['distinct']
+        v.transitions += t['generated']
+        kinds.update(mo['kinds'])
+        # the reports of one file (workbook, configuration, alteration) stay together
+        reps = sorted(mo['reports'], key=lambda r: json.dumps(
+            [sorted(r['broken']), r['iterate'], r['p']]))
+        items += [(mo['name'], mo['fresh'], r) for r in reps]
+    # the cases are executed in equal shares, whatever workbook they belong to
+    n_share = max(1, min(len(items) // 40, 4 * (os.cpu_count() or 4)))
+    size = -(-len(items) // n_share)
+    shares = [(items[i:i + size], run_index) for i in range(0, len(items), size)]
+    results = parallel.run_jobs(exec_job, shares)
+    n_viol, n_notes = 0, 0
     for r in results:
-        for t in r['tlc']:
-            v.tlc_runs.append(t)
-            v.states += t['distinct']
-            v.transitions += t['generated']
         v.evaluations += r['cases']
-        v.distinct.update((r['name'], r['run'], i) for i in range(r['keys']))
-        v.traces += r['reports']
+        v.traces += r['cases']
+        n_viol += r['n_violations']
         for n in r['notes']:
-            v.note(n)
+            if n_notes < 6:
+                v.note(n)
+            n_notes += 1
         for desc, case in r['violations']:
-            v.violation(desc, case)
+            if len(v.violations) < 12:
+                v.violation(desc, case)
         if r['sample']:
             v.sample(r['sample'], limit=3)
+    v.distinct.update(range(len(items)))
     v.extra.update(
         exhaustive=False,
+        discrepancies=n_viol,
+        alteration_kinds=sorted(kinds),
         rule='one case = one (workbook, altered cell and stored value | none, output list, '
              'tolerance, broken cells, calculation mode) behaviour of Validate.tla, realised as an .xlsx file with '
              'patched stored results and run through validate_calcs; every formula cell is '
-             'altered in turn to a number beyond the tolerance, a text, an error and a logical')
-    v.assumptions = ['1 <-> TRUE and 0 <-> FALSE alterations are excluded (python equality)',
+             'altered in turn to a number beyond the tolerance, a text, the empty text, an '
+             'error, a logical, and to the value of the other kind python takes for equal '
+             '(TRUE <-> 1, FALSE <-> 0)')
+    v.assumptions = ['a logical is not a number: TRUE <-> 1, FALSE <-> 0, TRUE <-> FALSE are '
+                     'alterations under every tolerance',
                      'tolerance is None, 0 or 2; altered numbers differ by 7',
                      'an iterative workbook is one with calculation.iterate set (100 iterations, '
                      'delta 0.001); the workbooks themselves have no circular reference']
